@@ -175,8 +175,8 @@ theorem escapes_exactly (c : Cfg) (inj : Inj) (co ro : Option ExcKind) :
     (run facts14 c inj co ro).escaped = ((truth inj co ro).serFail && c.transport == .serverBase) :=
   (run_row facts14 trace_spec_table proc_events_same_for_every_signature c inj co ro).1
 
-theorem wsgi_never_escapes (o : OutProto) (sh : Shape) (sg : Sig) (inj : Inj) (co ro : Option ExcKind) :
-    (run facts14 ⟨o, .wsgi, sh, sg⟩ inj co ro).escaped = false := by
+theorem wsgi_never_escapes (o : OutProto) (sh : Shape) (sg : Sig) (pd : Bool) (inj : Inj) (co ro : Option ExcKind) :
+    (run facts14 ⟨o, .wsgi, sh, sg, pd⟩ inj co ro).escaped = false := by
   rw [escapes_exactly]; simp
 
 /-- the trace is accepted, in the state that records what really happened -/
@@ -351,6 +351,11 @@ theorem decorator_keywords_reach_descriptor (sp : Spelling) (ms : List (Mgr Even
 theorem mrpc_service_class_manager_reaches_descriptor (svc : Mgr Event) :
     descriptorService facts14 true svc = svc := rfl
 
+/-- when user code or a listener has pre-set ctx.out_document (a cached response), get_out_string still fires
+    the document and string events of finalize_context: the table (which uses `fin`) covers these calls -/
+theorem preset_document_still_finalized : facts14.getOutStringPreset = facts14.fin false false := by
+  decide
+
 /-! ### non-vacuity -/
 
 -- a registration history with duplicates, two events
@@ -362,7 +367,7 @@ example : (Mgr.empty.applyAll [Op.add 1 7, .add 1 8, .del 1 7, .add 1 7, .del 1 
 example : (Mgr.empty.applyAll [Op.add 1 7, .add 1 8, .clear 1, .add 1 8]).fire 1 = [8] := by decide
 -- a method without a return value over HttpRpc: the output protocol leaves out_string None, all events still fire
 example : facts14.leavesNone .httpRpc .void = true := by decide
-example : methodView (run facts14 ⟨.httpRpc, .wsgi, .void, .void⟩ ⟨.none, .fault, false⟩ none none).steps
+example : methodView (run facts14 ⟨.httpRpc, .wsgi, .void, .void, false⟩ ⟨.none, .fault, false⟩ none none).steps
     = [.ev .created, .ev .call, .user, .ev .returnObject, .ev .returnDocument, .ev .returnString, .ev .closed] := by decide
 -- A registered, E fired, B registered, E fired again, A removed, E fired
 example : Mgr.empty.runHistory [Op.add 1 7, .fire 1, .add 1 8, .fire 1, .del 1 7, .fire 1, .fire 2] = [[7], [7, 8], [8], []] := by decide
@@ -373,9 +378,9 @@ example : (fireReentrant (progOf [(1, [.del 1]), (2, [.add 4])]) 20 [1, 2, 3]).n
 example : allRows.length = 1728 := by decide +kernel
 example : (lang 9 .start).length = 7 := by decide +kernel
 -- runs that do not escape exist for every kind of failure; one that escapes exists
-example : (run facts14 ⟨.soap11, .wsgi, .value, .single⟩ ⟨.serialize, .exc, true⟩ none none).escaped = false := by decide
-example : (run facts14 ⟨.soap11, .serverBase, .value, .single⟩ ⟨.serialize, .exc, true⟩ none none).escaped = true := by decide
-example : methodView (run facts14 ⟨.json, .wsgi, .value, .single⟩ ⟨.none, .fault, false⟩ none (some .exc)).steps
+example : (run facts14 ⟨.soap11, .wsgi, .value, .single, false⟩ ⟨.serialize, .exc, true⟩ none none).escaped = false := by decide
+example : (run facts14 ⟨.soap11, .serverBase, .value, .single, false⟩ ⟨.serialize, .exc, true⟩ none none).escaped = true := by decide
+example : methodView (run facts14 ⟨.json, .wsgi, .value, .single, false⟩ ⟨.none, .fault, false⟩ none (some .exc)).steps
     = [.ev .created, .ev .call, .user, .ev .returnObject, .ev .exceptionObject, .ev .exceptionDocument,
        .ev .exceptionString, .ev .closed] := by decide
 -- a world that satisfies the hypotheses of `first_app_listener_sees_spec`, with a raising listener
@@ -390,8 +395,8 @@ def exampleWorld : World where
 example : callOutcome exampleWorld = some .exc := by decide
 example : (∀ ev, ∃ rest, exampleWorld.app ev = 0 :: rest ∧ 0 ∉ rest) ∧ (∀ ev, exampleWorld.raises 0 ev = none) :=
   ⟨fun _ => ⟨[4], rfl, by decide⟩, fun ev => by simp [exampleWorld]⟩
-example : viewOf (.meth 0) 6 (trace facts14 ⟨.xml, .wsgi, .value, .single⟩ ⟨.none, .fault, false⟩ exampleWorld) = [.call] := by decide
-example : viewOf .svc 7 (trace facts14 ⟨.xml, .wsgi, .value, .single⟩ ⟨.none, .fault, false⟩ exampleWorld)
+example : viewOf (.meth 0) 6 (trace facts14 ⟨.xml, .wsgi, .value, .single, false⟩ ⟨.none, .fault, false⟩ exampleWorld) = [.call] := by decide
+example : viewOf .svc 7 (trace facts14 ⟨.xml, .wsgi, .value, .single, false⟩ ⟨.none, .fault, false⟩ exampleWorld)
     = [.exceptionObject, .exceptionDocument, .exceptionString] := by decide
 
 end SpyneModel.Props.C14
